@@ -21,53 +21,662 @@ use crate::l5_pow::*;
 verus! {
 
 //@@ item src/modular/monty_form.rs | struct MontyParams
+#[derive(Clone, Copy)]
+pub struct MontyParams<const LIMBS: usize> {
+    pub modulus: Odd<Uint<LIMBS>>,
+    pub one: Uint<LIMBS>,
+    pub r2: Uint<LIMBS>,
+    pub r3: Uint<LIMBS>,
+    pub mod_neg_inv: Limb,
+    pub mod_leading_zeros: u32,
+}
 //@@ end
 //@@ item src/modular/monty_form.rs | struct MontyForm
+#[derive(Clone, Copy)]
+pub struct MontyForm<const LIMBS: usize> {
+    pub montgomery_form: Uint<LIMBS>,
+    pub params: MontyParams<LIMBS>,
+}
 //@@ end
+
+
+// ---- data-structure invariant and abstract view
+
+/// c is the leading-zero count of v as a `bits`-bit number, clamped to 63 (Word::BITS - 1):
+/// c < 63: 2^(bits-c-1) <= v < 2^(bits-c);  c == 63: v < 2^(bits-63)
+pub open spec fn clamped_lz(v: int, bits: nat, c: int) -> bool {
+    0 <= c <= 63 && v < p2((bits - c) as nat) && (c < 63 ==> v >= p2((bits - c - 1) as nat))
+}
+
+impl<const LIMBS: usize> MontyParams<LIMBS> {
+    /// the modulus as an integer
+    pub open spec fn m(&self) -> int { self.modulus.0.v() }
+    /// R = B^LIMBS
+    pub open spec fn big_r(&self) -> int { bp(LIMBS as nat) }
+    /// every derived field except `one` equals its definition (R = B^LIMBS):
+    /// modulus odd, r2 == R^2 mod m, r3 == R^3 mod m, mod_neg_inv * m[0] == -1 (mod B), clamped leading zeros.
+    /// (LIMBS < 2^26 is the width restriction under which the callees are proved.)
+    pub open spec fn wf_rest(&self) -> bool {
+        let m = self.modulus.0.v(); let r = bp(LIMBS as nat);
+        &&& 1 <= LIMBS < 0x400_0000
+        &&& m % 2 == 1
+        &&& self.r2.v() == (r * r) % m
+        &&& self.r3.v() == (r * r * r) % m
+        &&& neg_inv_ok(self.mod_neg_inv, self.modulus.0.limbs@[0])
+        &&& clamped_lz(m, (64 * LIMBS) as nat, self.mod_leading_zeros as int)
+    }
+    /// all fields equal their definitions: wf_rest and one == R mod m
+    pub open spec fn wf(&self) -> bool {
+        self.wf_rest() && self.one.v() == bp(LIMBS as nat) % self.modulus.0.v()
+    }
+}
+
+impl<const LIMBS: usize> MontyForm<LIMBS> {
+    /// parameters well formed and the stored representative canonical (< m)
+    pub open spec fn wf(&self) -> bool {
+        self.params.wf() && self.montgomery_form.v() < self.params.modulus.0.v()
+    }
+    /// the element of Z/mZ (as an integer in [0, m)) represented by this value
+    pub open spec fn view(&self) -> int {
+        mont_repr(self.montgomery_form.v(), self.params.modulus.0.v(), LIMBS as nat)
+    }
+}
+
+// ---- lemmas
+
+/// wf determines every field: two well-formed parameter sets for the same modulus value are equal field by field
+/// (this is what makes the constant-time, vartime and compile-time constructors agree)
+pub proof fn lemma_params_unique<const LIMBS: usize>(a: MontyParams<LIMBS>, b: MontyParams<LIMBS>)
+    requires a.wf(), b.wf(), a.modulus.0.v() == b.modulus.0.v()
+    ensures a.modulus.0.limbs@ =~= b.modulus.0.limbs@, a.one.limbs@ =~= b.one.limbs@, a.r2.limbs@ =~= b.r2.limbs@, a.r3.limbs@ =~= b.r3.limbs@,
+        a.mod_neg_inv == b.mod_neg_inv, a.mod_leading_zeros == b.mod_leading_zeros
+{
+    let n = LIMBS as nat;
+    lemma_val_inj(a.modulus.0.limbs@, b.modulus.0.limbs@, n);
+    lemma_val_inj(a.one.limbs@, b.one.limbs@, n);
+    lemma_val_inj(a.r2.limbs@, b.r2.limbs@, n);
+    lemma_val_inj(a.r3.limbs@, b.r3.limbs@, n);
+    assert(a.modulus.0.limbs@ =~= b.modulus.0.limbs@);
+    assert(a.one.limbs@ =~= b.one.limbs@);
+    assert(a.r2.limbs@ =~= b.r2.limbs@);
+    assert(a.r3.limbs@ =~= b.r3.limbs@);
+    lemma_neg_inv_unique(a.mod_neg_inv.0 as int, b.mod_neg_inv.0 as int, a.modulus.0.limbs@[0].0 as int);
+    lemma_clamped_lz_unique(a.modulus.0.v(), (64 * LIMBS) as nat, a.mod_leading_zeros as int, b.mod_leading_zeros as int);
+}
+
+/// k * m0 == -1 (mod B) has at most one solution k in [0, B)
+proof fn lemma_neg_inv_unique(k1: int, k2: int, m0: int)
+    requires 0 <= k1 < B(), 0 <= k2 < B(), 0 <= m0 < B(), (k1 * m0) % B() == B() - 1, (k2 * m0) % B() == B() - 1
+    ensures k1 == k2
+{
+    // k1 == k1 * (-(k2*m0)) == k2 * (-(k1*m0)) == k2  (mod B)
+    let b = B();
+    let x = k1 * (k2 * m0); let y = k2 * (k1 * m0);
+    assert(x == y) by (nonlinear_arith);
+    lemma_mul_mod_noop_right(k1, k2 * m0, b);
+    lemma_mul_mod_noop_right(k2, k1 * m0, b);
+    assert((k1 * (b - 1)) % b == (k2 * (b - 1)) % b);
+    assert(k1 * (b - 1) == k1 * b - k1) by (nonlinear_arith);
+    assert(k2 * (b - 1) == k2 * b - k2) by (nonlinear_arith);
+    lemma_mod_multiples_vanish(k1, -k1, b);
+    lemma_mod_multiples_vanish(k2, -k2, b);
+    assert(b * k1 + (-k1) == k1 * b - k1) by (nonlinear_arith);
+    assert(b * k2 + (-k2) == k2 * b - k2) by (nonlinear_arith);
+    assert((-k1) % b == (-k2) % b);
+    if k1 != 0 { lemma_mod_add_multiples_vanish(-k1, b); lemma_small_mod((b - k1) as nat, b as nat); } else { lemma_small_mod(0, b as nat); }
+    if k2 != 0 { lemma_mod_add_multiples_vanish(-k2, b); lemma_small_mod((b - k2) as nat, b as nat); } else { lemma_small_mod(0, b as nat); }
+}
+
+proof fn lemma_p2_mono(a: nat, b: nat)
+    requires a <= b
+    ensures p2(a) <= p2(b), p2(a) > 0
+{
+    lemma_pow2_pos(a);
+    if a < b { lemma_pow2_strictly_increases(a, b); }
+}
+
+proof fn lemma_clamped_lz_unique(v: int, bits: nat, c1: int, c2: int)
+    requires bits >= 64, clamped_lz(v, bits, c1), clamped_lz(v, bits, c2)
+    ensures c1 == c2
+{
+    if c1 < c2 {
+        // v >= 2^(bits-c1-1) >= 2^(bits-c2) > v
+        lemma_p2_mono((bits - c2) as nat, (bits - c1 - 1) as nat);
+    } else if c2 < c1 {
+        lemma_p2_mono((bits - c1) as nat, (bits - c2 - 1) as nat);
+    }
+}
+
+/// R is a unit modulo an odd m > 1, hence R mod m != 0 and ((R - 1) mod m) + 1 == R mod m
+proof fn lemma_one_def(m: int, n: nat)
+    requires m > 1, m % 2 == 1
+    ensures (bp(n) - 1) % m + 1 == bp(n) % m
+{
+    let r = bp(n);
+    let ir = lemma_r_inv(m, n);
+    lemma_small_mod(1, m as nat);
+    lemma_mul_mod_noop_left(r, ir, m);
+    let c = r % m;
+    lemma_mod_bound(r, m);
+    if c == 0 {
+        assert(0 * ir == 0);
+        lemma_small_mod(0, m as nat);
+        assert(false);
+    }
+    lemma_fundamental_div_mod(r, m);
+    lemma_fundamental_div_mod_converse(r - 1, m, r / m, c - 1);
+}
+
+/// the stored `one` is congruent to R in every case (for m == 1 the code yields one == 1)
+proof fn lemma_one_cong(one: int, m: int, n: nat)
+    requires m >= 1, m % 2 == 1, one == (bp(n) - 1) % m + 1
+    ensures one % m == bp(n) % m, m > 1 ==> one == bp(n) % m, m == 1 ==> one == 1, 1 <= one <= m
+{
+    lemma_mod_bound(bp(n) - 1, m);
+    if m > 1 {
+        lemma_one_def(m, n);
+        lemma_mod_twice(bp(n), m);
+    } else {
+        assert(one % 1 == 0);
+        assert(bp(n) % 1 == 0);
+    }
+}
+
+/// r2 == one^2 mod m == R^2 mod m
+proof fn lemma_r2_def(one: int, m: int, r: int)
+    requires m >= 1, one % m == r % m
+    ensures (one * one) % m == (r * r) % m
+{
+    lemma_mul_mod_noop_general(one, one, m);
+    lemma_mul_mod_noop_general(r, r, m);
+}
+
+/// r3 == r2^2 * R^-1 mod m == R^3 mod m
+proof fn lemma_r3_def(r3: int, r2: int, m: int, n: nat)
+    requires m >= 1, m % 2 == 1, r2 == (bp(n) * bp(n)) % m, mont_red(r3, r2 * r2, m, bp(n))
+    ensures r3 == (bp(n) * bp(n) * bp(n)) % m
+{
+    let r = bp(n);
+    lemma_mod_twice(r * r, m);
+    lemma_mul_mod_noop_general(r2, r2, m);
+    lemma_mul_mod_noop_general(r * r, r * r, m);
+    assert((r * r) * (r * r) == (r * r * r) * r) by (nonlinear_arith);
+    lemma_mont_cancel(r3, r * r * r, m, n);
+    lemma_small_mod(r3 as nat, m as nat);
+}
+
+/// mod_neg_inv from the inverse of m modulo B
+proof fn lemma_neg_inv_def(k: int, inv0: int, inv: int, m0: int, mv: int)
+    requires 0 <= k < B(), 0 <= inv0 < B(), 0 <= m0 < B(),
+        k == (if 0 - inv0 >= 0 { 0 - inv0 } else { 0 - inv0 + B() }),
+        inv % B() == inv0, mv % B() == m0, (mv * inv) % B() == 1
+    ensures (k * m0) % B() == B() - 1
+{
+    let b = B();
+    lemma_mul_mod_noop_general(mv, inv, b);
+    assert((m0 * inv0) % b == 1);
+    if inv0 == 0 {
+        assert(m0 * 0 == 0);
+        lemma_small_mod(0, b as nat);
+        assert(false);
+    }
+    assert(k == b - inv0);
+    assert(k * m0 == b * m0 + (-(m0 * inv0))) by (nonlinear_arith) requires k == b - inv0;
+    lemma_mod_multiples_vanish(m0, -(m0 * inv0), b);
+    // (-(x)) % b for x % b == 1
+    let x = m0 * inv0;
+    lemma_fundamental_div_mod(x, b);
+    lemma_fundamental_div_mod_converse(-x, b, -(x / b) - 1, b - 1);
+}
+
+/// conversion into Montgomery form: x * r2 * R^-1 == x * R (mod m)
+proof fn lemma_to_mont(x: int, r2: int, m: int, n: nat)
+    requires m >= 1, m % 2 == 1, r2 == (bp(n) * bp(n)) % m
+    ensures mont_repr(x * r2, m, n) == (x * bp(n)) % m,
+        mont_repr((x * bp(n)) % m, m, n) == x % m
+{
+    let r = bp(n);
+    let c = (x * r) % m;
+    lemma_mod_bound(x * r, m);
+    lemma_mul_mod_noop_left(x * r, r, m);
+    lemma_mul_mod_noop_right(x, r * r, m);
+    assert((x * r) * r == x * (r * r)) by (nonlinear_arith);
+    assert(mont_red(c, x * r2, m, r));
+    lemma_mont_repr_unique(c, x * r2, m, n);
+    lemma_mont_repr_of(x, m, n);
+}
+
+/// 0 represents 0
+proof fn lemma_repr_zero(m: int, n: nat)
+    requires m >= 1, m % 2 == 1
+    ensures mont_repr(0, m, n) == 0
+{
+    assert(0 * bp(n) == 0);
+    lemma_mont_repr_unique(0, 0, m, n);
+}
+
+/// negation: (m - a) mod m represents -repr(a) mod m
+proof fn lemma_repr_neg(a: int, m: int, n: nat)
+    requires m >= 1, m % 2 == 1
+    ensures mont_repr((m - a) % m, m, n) == (-mont_repr(a, m, n)) % m
+{
+    lemma_repr_zero(m, n);
+    lemma_mont_repr_sub(0, a, m, n);
+    lemma_mod_add_multiples_vanish(-a, m);
+    assert(m + (-a) == m - a);
+    assert(0 - a == -a);
+}
+
+/// halving: 2 * repr(r) == repr(a) (mod m) when 2r == a (mod m)
+proof fn lemma_repr_half(r: int, a: int, m: int, n: nat)
+    requires m >= 1, m % 2 == 1, (2 * r) % m == a
+    ensures (2 * mont_repr(r, m, n)) % m == mont_repr(a, m, n)
+{
+    lemma_mont_repr_add(r, r, m, n);
+    assert(r + r == 2 * r);
+}
 
 //@@ subst \b(Self|Uint)::(ZERO|ONE|MAX|BITS|LOG2_BITS)\b(?!\() => \1::\2()
 //@@ subst \bUint::<(\w+)>::(ZERO|ONE|MAX|BITS)\b(?!\() => Uint::<\1>::\2()
 //@@ fn src/odd.rs | impl<T> Odd<T> | as_ref | body | props C08 C11
+impl<T> Odd<T> {
+pub const fn as_ref(&self) -> (ret__: &T)
+//@+
+    ensures *ret__ == self.0
+//@-
+{
+        &self.0
+    }
+}
 //@@ end
 //@@ fn src/odd.rs | impl<T> Odd<T> | as_nz_ref | stub | props C08 C11
+impl<T> Odd<T> {
+#[verifier::external_body]
+pub const fn as_nz_ref(&self) -> (ret__: &NonZero<T>)
+//@+
+    ensures ret__.0 == self.0
+//@-
+{
+    unimplemented!()
+}
+}
 //@@ end
 //@@ fn src/modular/monty_form.rs | impl<const LIMBS: usize> MontyParams<LIMBS> | new_vartime | body | props C08 C11
+impl<const LIMBS: usize> MontyParams<LIMBS> {
+pub const fn new_vartime(modulus: Odd<Uint<LIMBS>>) -> (ret__: Self)
+{
+        // `R mod modulus` where `R = 2^BITS`.
+        // Represents 1 in Montgomery form.
+        let one = Uint::MAX()
+            .rem_vartime(modulus.as_nz_ref())
+            .wrapping_add(&Uint::ONE());
+        // `R^2 mod modulus`, used to convert integers to Montgomery form.
+        let r2 = Uint::rem_wide_vartime(one.square_wide(), modulus.as_nz_ref());
+        // The modular inverse should always exist, because it was ensured odd above, which also ensures it's non-zero
+        let inv_mod = modulus
+            .as_ref()
+            .inv_mod2k_full_vartime(Word::BITS)
+            .expect("modular inverse should exist");
+        let mod_neg_inv = Limb(Word::MIN.wrapping_sub(inv_mod.limbs[0].0));
+        let mod_leading_zeros = modulus.as_ref().leading_zeros_vartime();
+        let mod_leading_zeros = if mod_leading_zeros < Word::BITS - 1 {
+            mod_leading_zeros
+        } else {
+            Word::BITS - 1
+        };
+        // `R^3 mod modulus`, used for inversion in Montgomery form.
+        let r3 = montgomery_reduction(&r2.square_wide(), &modulus, mod_neg_inv);
+        Self {
+            modulus,
+            one,
+            r2,
+            r3,
+            mod_neg_inv,
+            mod_leading_zeros,
+        }
+    }
+}
 //@@ end
 //@@ fn src/modular/monty_form.rs | impl<const LIMBS: usize> MontyParams<LIMBS> | modulus | body | props C08 C11
+impl<const LIMBS: usize> MontyParams<LIMBS> {
+pub const fn modulus(&self) -> (ret__: &Odd<Uint<LIMBS>>)
+//@+
+    ensures *ret__ == self.modulus
+//@-
+{
+        &self.modulus
+    }
+}
 //@@ end
 //@@ fn src/modular/monty_form.rs | impl<const LIMBS: usize> MontyForm<LIMBS> | new | body | props C08 C11
+impl<const LIMBS: usize> MontyForm<LIMBS> {
+pub const fn new(integer: &Uint<LIMBS>, params: MontyParams<LIMBS>) -> (ret__: Self)
+//@+
+    requires params.wf()
+    ensures ret__.wf(), ret__.params == params,
+        ret__.view() == integer.v() % params.modulus.0.v(),
+        ret__.montgomery_form.v() == (integer.v() * bp(LIMBS as nat)) % params.modulus.0.v()
+//@-
+{
+        let product = integer.split_mul(&params.r2);
+//@+
+    proof {
+        let n = LIMBS as nat; let m = params.modulus.0.v(); let x = integer.v(); let r2 = params.r2.v();
+        lemma_val_bound(integer.limbs@, n); lemma_val_bound(params.modulus.0.limbs@, n);
+        lemma_mod_bound(bp(n) * bp(n), m);
+        assert(x * r2 < m * bp(n)) by (nonlinear_arith) requires 0 <= x < bp(n), 0 <= r2 < m;
+        lemma_to_mont(x, r2, m, n);
+    }
+//@-
+        let montgomery_form = montgomery_reduction(&product, &params.modulus, params.mod_neg_inv);
+        Self {
+            montgomery_form,
+            params,
+        }
+    }
+}
 //@@ end
 //@@ fn src/modular/monty_form.rs | impl<const LIMBS: usize> MontyForm<LIMBS> | retrieve | body | props C08 C11
+impl<const LIMBS: usize> MontyForm<LIMBS> {
+pub const fn retrieve(&self) -> (ret__: Uint<LIMBS>)
+//@+
+    requires self.wf()
+    ensures ret__.v() == self.view(), ret__.v() < self.params.modulus.0.v()
+//@-
+{
+//@+
+    proof {
+        let n = LIMBS as nat; let m = self.params.modulus.0.v();
+        lemma_val_bound(self.montgomery_form.limbs@, n); lemma_val_bound(self.params.modulus.0.limbs@, n);
+        assert(0 * bp(n) == 0);
+        assert(m <= m * bp(n)) by (nonlinear_arith) requires m >= 0, bp(n) >= 1;
+    }
+//@-
+        montgomery_reduction(
+            &(self.montgomery_form, Uint::ZERO()),
+            &self.params.modulus,
+            self.params.mod_neg_inv,
+        )
+    }
+}
 //@@ end
 //@@ fn src/modular/monty_form.rs | impl<const LIMBS: usize> MontyForm<LIMBS> | zero | body | props C08 C11
+impl<const LIMBS: usize> MontyForm<LIMBS> {
+pub const fn zero(params: MontyParams<LIMBS>) -> (ret__: Self)
+//@+
+    requires params.wf()
+    ensures ret__.wf(), ret__.params == params, ret__.view() == 0, ret__.montgomery_form.v() == 0
+//@-
+{
+//@+
+    proof { lemma_val_bound(params.modulus.0.limbs@, LIMBS as nat); lemma_repr_zero(params.modulus.0.v(), LIMBS as nat); }
+//@-
+        Self {
+            montgomery_form: Uint::<LIMBS>::ZERO(),
+            params,
+        }
+    }
+}
 //@@ end
 //@@ fn src/modular/monty_form.rs | impl<const LIMBS: usize> MontyForm<LIMBS> | one | body | props C08 C11
+impl<const LIMBS: usize> MontyForm<LIMBS> {
+pub const fn one(params: MontyParams<LIMBS>) -> (ret__: Self)
+//@+
+    requires params.wf()
+    ensures ret__.wf(), ret__.params == params, ret__.view() == 1int % params.modulus.0.v(), ret__.montgomery_form == params.one
+//@-
+{
+//@+
+    proof {
+        let n = LIMBS as nat; let m = params.modulus.0.v();
+        lemma_val_bound(params.modulus.0.limbs@, n);
+        lemma_mod_bound(bp(n), m);
+        assert(1 * bp(n) == bp(n));
+        lemma_mont_repr_of(1, m, n);
+    }
+//@-
+        Self {
+            montgomery_form: params.one,
+            params,
+        }
+    }
+}
 //@@ end
 //@@ fn src/modular/monty_form.rs | impl<const LIMBS: usize> MontyForm<LIMBS> | params | body | props C08 C11
+impl<const LIMBS: usize> MontyForm<LIMBS> {
+pub const fn params(&self) -> (ret__: &MontyParams<LIMBS>)
+//@+
+    ensures *ret__ == self.params
+//@-
+{
+        &self.params
+    }
+}
 //@@ end
 //@@ fn src/modular/monty_form.rs | impl<const LIMBS: usize> MontyForm<LIMBS> | as_montgomery | body | props C08 C11
+impl<const LIMBS: usize> MontyForm<LIMBS> {
+pub const fn as_montgomery(&self) -> (ret__: &Uint<LIMBS>)
+//@+
+    ensures *ret__ == self.montgomery_form
+//@-
+{
+        &self.montgomery_form
+    }
+}
 //@@ end
 //@@ fn src/modular/monty_form.rs | impl<const LIMBS: usize> MontyForm<LIMBS> | from_montgomery | body | props C08 C11
+impl<const LIMBS: usize> MontyForm<LIMBS> {
+pub const fn from_montgomery(integer: Uint<LIMBS>, params: MontyParams<LIMBS>) -> (ret__: Self)
+//@+
+    ensures ret__.montgomery_form == integer, ret__.params == params,
+        (params.wf() && integer.v() < params.modulus.0.v()) ==> ret__.wf()
+//@-
+{
+        Self {
+            montgomery_form: integer,
+            params,
+        }
+    }
+}
 //@@ end
 //@@ fn src/modular/monty_form.rs | impl<const LIMBS: usize> MontyForm<LIMBS> | to_montgomery | body | props C08 C11
+impl<const LIMBS: usize> MontyForm<LIMBS> {
+pub const fn to_montgomery(&self) -> (ret__: Uint<LIMBS>)
+//@+
+    ensures ret__ == self.montgomery_form
+//@-
+{
+        self.montgomery_form
+    }
+}
 //@@ end
 //@@ fn src/modular/monty_form.rs | impl<const LIMBS: usize> MontyForm<LIMBS> | div_by_2 | body | props C08 C11
+impl<const LIMBS: usize> MontyForm<LIMBS> {
+pub const fn div_by_2(&self) -> (ret__: Self)
+//@+
+    requires self.wf()
+    ensures ret__.wf(), ret__.params == self.params, (2 * ret__.view()) % self.params.modulus.0.v() == self.view()
+//@-
+{
+//@+
+    proof {
+        let n = LIMBS as nat; let m = self.params.modulus.0.v(); let a = self.montgomery_form.v();
+        lemma_val_bound(self.params.modulus.0.limbs@, n);
+        assert forall|r: int| (2 * r) % m == a implies (2 * #[trigger] mont_repr(r, m, n)) % m == mont_repr(a, m, n) by {
+            lemma_repr_half(r, a, m, n);
+        }
+    }
+//@-
+        Self {
+            montgomery_form: div_by_2(&self.montgomery_form, &self.params.modulus),
+            params: self.params,
+        }
+    }
+}
 //@@ end
 //@@ fn src/modular/monty_form/add.rs | impl<const LIMBS: usize> MontyForm<LIMBS> | add | body | props C08 C11
+impl<const LIMBS: usize> MontyForm<LIMBS> {
+pub const fn add(&self, rhs: &Self) -> (ret__: Self)
+//@+
+    requires self.wf(), rhs.wf(), rhs.params.modulus.0.v() == self.params.modulus.0.v()
+    ensures ret__.wf(), ret__.params == self.params, ret__.view() == (self.view() + rhs.view()) % self.params.modulus.0.v()
+//@-
+{
+        Self {
+            montgomery_form: add_montgomery_form(
+                &self.montgomery_form,
+                &rhs.montgomery_form,
+                &self.params.modulus,
+            ),
+            params: self.params,
+        }
+    }
+}
 //@@ end
 //@@ fn src/modular/monty_form/add.rs | impl<const LIMBS: usize> MontyForm<LIMBS> | double | body | props C08 C11
+impl<const LIMBS: usize> MontyForm<LIMBS> {
+pub const fn double(&self) -> (ret__: Self)
+//@+
+    requires self.wf()
+    ensures ret__.wf(), ret__.params == self.params, ret__.view() == (2 * self.view()) % self.params.modulus.0.v()
+//@-
+{
+        Self {
+            montgomery_form: double_montgomery_form(&self.montgomery_form, &self.params.modulus),
+            params: self.params,
+        }
+    }
+}
 //@@ end
 //@@ fn src/modular/monty_form/sub.rs | impl<const LIMBS: usize> MontyForm<LIMBS> | sub | body | props C08 C11
+impl<const LIMBS: usize> MontyForm<LIMBS> {
+pub const fn sub(&self, rhs: &Self) -> (ret__: Self)
+//@+
+    requires self.wf(), rhs.wf(), rhs.params.modulus.0.v() == self.params.modulus.0.v()
+    ensures ret__.wf(), ret__.params == self.params, ret__.view() == (self.view() - rhs.view()) % self.params.modulus.0.v()
+//@-
+{
+        Self {
+            montgomery_form: sub_montgomery_form(
+                &self.montgomery_form,
+                &rhs.montgomery_form,
+                &self.params.modulus,
+            ),
+            params: self.params,
+        }
+    }
+}
 //@@ end
 //@@ fn src/modular/monty_form/neg.rs | impl<const LIMBS: usize> MontyForm<LIMBS> | neg | body | props C08 C11
+impl<const LIMBS: usize> MontyForm<LIMBS> {
+pub const fn neg(&self) -> (ret__: Self)
+//@+
+    requires self.wf()
+    ensures ret__.wf(), ret__.params == self.params, ret__.view() == (-self.view()) % self.params.modulus.0.v()
+//@-
+{
+//@+
+    proof {
+        lemma_val_bound(self.params.modulus.0.limbs@, LIMBS as nat);
+        lemma_repr_neg(self.montgomery_form.v(), self.params.modulus.0.v(), LIMBS as nat);
+    }
+//@-
+        Self {
+            montgomery_form: self.montgomery_form.neg_mod(self.params.modulus.as_ref()),
+            params: self.params,
+        }
+    }
+}
 //@@ end
 //@@ fn src/modular/monty_form/mul.rs | impl<const LIMBS: usize> MontyForm<LIMBS> | mul | body | props C08 C11
+impl<const LIMBS: usize> MontyForm<LIMBS> {
+pub const fn mul(&self, rhs: &Self) -> (ret__: Self)
+//@+
+    requires self.wf(), rhs.wf(), rhs.params.modulus.0.v() == self.params.modulus.0.v()
+    ensures ret__.wf(), ret__.params == self.params, ret__.view() == (self.view() * rhs.view()) % self.params.modulus.0.v()
+//@-
+{
+        Self {
+            montgomery_form: mul_montgomery_form(
+                &self.montgomery_form,
+                &rhs.montgomery_form,
+                &self.params.modulus,
+                self.params.mod_neg_inv,
+            ),
+            params: self.params,
+        }
+    }
+}
 //@@ end
 //@@ fn src/modular/monty_form/mul.rs | impl<const LIMBS: usize> MontyForm<LIMBS> | square | body | props C08 C11
+impl<const LIMBS: usize> MontyForm<LIMBS> {
+pub const fn square(&self) -> (ret__: Self)
+//@+
+    requires self.wf()
+    ensures ret__.wf(), ret__.params == self.params, ret__.view() == (self.view() * self.view()) % self.params.modulus.0.v()
+//@-
+{
+        Self {
+            montgomery_form: square_montgomery_form(
+                &self.montgomery_form,
+                &self.params.modulus,
+                self.params.mod_neg_inv,
+            ),
+            params: self.params,
+        }
+    }
+}
 //@@ end
 //@@ fn src/modular/monty_form/pow.rs | impl<const LIMBS: usize> MontyForm<LIMBS> | pow | body | props C09 C11
+impl<const LIMBS: usize> MontyForm<LIMBS> {
+pub const fn pow<const RHS_LIMBS: usize>(
+        &self,
+        exponent: &Uint<RHS_LIMBS>,
+    ) -> (ret__: MontyForm<LIMBS>)
+//@+
+    requires self.wf(), 1 <= RHS_LIMBS < 0x400_0000
+    ensures ret__.wf(), ret__.params == self.params,
+        ret__.view() == pow(self.view(), exponent.v() as nat) % self.params.modulus.0.v()
+//@-
+{
+//@+
+    proof {
+        lemma_val_bound(exponent.limbs@, RHS_LIMBS as nat);
+        lemma_bp_pow2(RHS_LIMBS as nat);
+        lemma_small_mod(exponent.v() as nat, p2((64 * RHS_LIMBS) as nat) as nat);
+    }
+//@-
+        self.pow_bounded_exp(exponent, Uint::<RHS_LIMBS>::BITS())
+    }
+}
 //@@ end
 //@@ fn src/modular/monty_form/pow.rs | impl<const LIMBS: usize> MontyForm<LIMBS> | pow_bounded_exp | body | props C09 C11
+impl<const LIMBS: usize> MontyForm<LIMBS> {
+pub const fn pow_bounded_exp<const RHS_LIMBS: usize>(
+        &self,
+        exponent: &Uint<RHS_LIMBS>,
+        exponent_bits: u32,
+    ) -> (ret__: Self)
+//@+
+    requires self.wf(), 1 <= RHS_LIMBS, (exponent_bits as int) <= 64 * RHS_LIMBS
+    ensures ret__.wf(), ret__.params == self.params,
+        ret__.view() == pow(self.view(), (exponent.v() % p2(exponent_bits as nat)) as nat) % self.params.modulus.0.v(),
+        exponent_bits == 0 ==> ret__.montgomery_form == self.params.one
+//@-
+{
+        Self {
+            montgomery_form: pow_montgomery_form(
+                &self.montgomery_form,
+                exponent,
+                exponent_bits,
+                &self.params.modulus,
+                &self.params.one,
+                self.params.mod_neg_inv,
+            ),
+            params: self.params,
+        }
+    }
+}
 //@@ end
 
 } // verus!
